@@ -58,7 +58,8 @@ def gen(stream, rng, i, cfg):
             slots[a]['functions']['NEST0'] = [{'a': 'nested', 'slot': b, 'f': formgen.g3_tree(rng, scen.slot_env(slots[b]), 2)}]
             th['tasks'].append([a, 'NEST0()' + rng.choice(['', '+1', '&"x"'])])
     sc = {'engine': 'threads', 'slots': slots, 'threads': threads, 'clock': CLOCK0, 'rand': rng.choice([0.0, 0.25, 0.75]),
-          'opcode': rng.random() < 0.08}
+          'opcode': False}   # bytecode granularity dropped: see DESIGN 2.3 (not deterministic on 3.12)
+    rng.random()     # (keeps the stream of draws stable after the opcode option was removed)
     kind = rng.choice(['random', 'random', 'single', 'pingpong'])
     if kind == 'random':
         sc['sched'] = {'kind': 'random', 'seed': rng.getrandbits(48), 'mean': rng.choice([3, 30, 300, 3000])}
@@ -490,7 +491,7 @@ def _shrink_nest(sc):
 def describe():
     return {
         'rule': 'threads: one run = 2-4 real caller threads, each with 1-6 formulas on its own pre-built parser(s), executed '
-                'under a seeded baton scheduler that pre-empts at line (8%: bytecode) boundaries (families: random with mean '
+                'under a seeded baton scheduler that pre-empts at line boundaries (families: random with mean '
                 '3/30/300/3000 steps, single interposition at step k, ping-pong every n steps), compared with each thread run '
                 'alone in a world that holds only its own parsers; nest: one run = an outer evaluation whose callback site '
                 '(custom function or listener of any of the four event kinds) evaluates a complete formula on another pre-built '
@@ -498,14 +499,14 @@ def describe():
                 'references; evaluations = top-level evaluations under the schedule / outer evaluations; distinct = distinct '
                 '(slots, tasks, observed decision list) resp. (slots, outer formula); non-trivial = at least one context switch '
                 'happened inside an evaluation resp. at least one nested evaluation was actually performed',
-        'fault_kinds': ['ctx_switch', 'schedule_random', 'schedule_single', 'schedule_pingpong', 'opcode_granularity',
+        'fault_kinds': ['ctx_switch', 'schedule_random', 'schedule_single', 'schedule_pingpong',
                         'nested_other', 'nested_same', 'nested_build', 'nested_depth2', 'cb_raise', 'listener_raise'],
         'real_vs_stub': {'hotxlfp (all of it)': 'real', 'ply lex/yacc, dateutil': 'real', 'host callbacks': 'scripted',
                          'caller threads': 'real threading.Thread objects; who runs is decided only by the simulator (baton)',
                          'OS scheduler / GIL switching': 'replaced by the seeded decision list',
                          'clock/random/stderr': 'stub (frozen SimClock, constant SimRandom, sink)'},
         'assumptions': [
-            'pre-emption granularity is a source line (bytecode in 8% of runs); C-level atomicity of single bytecodes is assumed as under the GIL',
+            'pre-emption granularity is a source line of hotxlfp/ply code (bytecode granularity was tried and dropped: CPython 3.12 instruments opcode events lazily per code object, which broke run-to-run determinism)',
             'parsers are constructed on the main thread before the schedule starts; concurrent construction is not explored',
             'one parser object is never used by two threads at once (the property speaks of different parser objects)',
             'a nested evaluation that itself escapes parse() discards the scenario (that is C01 matter)',
